@@ -1,1 +1,398 @@
-/- C20: property theorems (not built yet). -/
+/-
+  C20 — Text functions: slicing partitions, search is first-match, TEXT is decimal-exact.
+
+  Statement (properties.jsonl): "For every text s and positions n, k: LEFT(s,n) & MID(s,n+1,LEN(s)) = s, RIGHT(s,k)
+  is the last k characters, REPLACE(s,n,k,t) = LEFT(s,n-1) & t & MID(s,n+k,LEN(s)), FIND returns the first position p
+  with MID(s,p,LEN(f)) = f or #VALUE!, SUBSTITUTE replaces all or exactly the i-th occurrence, CONCATENATE and &
+  agree, TRIM leaves single inner spaces and none at the ends, UPPER/LOWER/TRIM are idempotent and EXACT is
+  case-sensitive equality. The slicing functions treat numbers as their Excel rendering (3, not 3.0) and give
+  #VALUE! for negative counts; TEXT(x, f) for formats made of 0 # , . % renders the half-away-from-zero decimal
+  rounding of x with the requested digits, grouping and percent scaling."
+
+  Models: Pycel/Model/TextFns.lean (lib/text.py), Pycel/Model/TextFormat.lean (TextFormat._number_converter).
+  Texts are arbitrary `List Char`, positions arbitrary `Int`: no length bound anywhere below.
+  In the core functions `none` stands for #VALUE!.
+-/
+import Pycel.Lemmas.TextFns
+import Pycel.Lemmas.TextFormat
+import Pycel.Generated.TextMeta
+
+namespace Pycel.TextFns
+open Pycel Pycel.Ops
+
+/-! ### the live `excel_helper` metadata is the one the wrappers of Model/TextFns.lean hard-wire -/
+
+/-- regenerated from `getattr(f, 'excel_func_meta')` on every run: which positions are coerced to text / to numbers.
+    The wrappers `LEFT … TEXT` coerce exactly these positions; a change of the decorators breaks this theorem. -/
+theorem C20_meta_table :
+    Gen.TextMeta.left = ⟨[0], [1], [0, 1], false, true, 2⟩ ∧
+    Gen.TextMeta.right = ⟨[0], [1], [0, 1], false, true, 2⟩ ∧
+    Gen.TextMeta.mid = ⟨[0], [1, 2], [], true, true, 3⟩ ∧
+    Gen.TextMeta.replace = ⟨[0, 3], [1, 2], [], true, true, 4⟩ ∧
+    Gen.TextMeta.find = ⟨[0, 1], [2], [0, 1, 2], false, true, 3⟩ ∧
+    Gen.TextMeta.substitute = ⟨[0, 1, 2], [], [], true, true, 4⟩ ∧
+    Gen.TextMeta.trim = ⟨[0], [], [0], false, true, 1⟩ ∧
+    Gen.TextMeta.upper = ⟨[0], [], [0], false, true, 1⟩ ∧
+    Gen.TextMeta.lower = ⟨[0], [], [0], false, true, 1⟩ ∧
+    Gen.TextMeta.exact = ⟨[0, 1], [], [0, 1], false, true, 2⟩ ∧
+    Gen.TextMeta.len_ = ⟨[], [], [0], false, true, 1⟩ ∧
+    Gen.TextMeta.text = ⟨[1], [], [0], false, true, 2⟩ ∧
+    Gen.TextMeta.concat_undecorated = true ∧ Gen.TextMeta.concatenate_undecorated = true := by
+  decide
+
+/-! ### slicing -/
+
+/-- "LEFT(s,n) & MID(s,n+1,LEN(s)) = s" — for every text and every count n ≥ 0 (n beyond LEN(s) included). -/
+theorem C20_left_mid (s : Text) (n : Int) (hn : 0 ≤ n) :
+    ∃ a b, left s n = some a ∧ mid s (n + 1) s.length = some b ∧ a ++ b = s :=
+  left_mid s n hn
+
+/-- "RIGHT(s,k) is the last k characters": a suffix of s … -/
+theorem C20_right (s : Text) (k : Int) (hk : 0 ≤ k) :
+    ∃ r, right s k = some r ∧ r <:+ s ∧ r.length = min k.toNat s.length :=
+  right_spec s k hk
+
+/-- … of length k (all of s when k exceeds its length); with `C20_right` this determines the result. -/
+theorem C20_right_length (s : Text) (k : Int) (hk : 0 ≤ k) (hl : k ≤ s.length) :
+    ∃ r, right s k = some r ∧ (r.length : Int) = k ∧ ∃ a, a ++ r = s := by
+  obtain ⟨r, h1, h2, h3⟩ := right_spec s k hk
+  refine ⟨r, h1, by omega, h2⟩
+
+/-- "REPLACE(s,n,k,t) = LEFT(s,n-1) & t & MID(s,n+k,LEN(s))" — every start n ≥ 1 and count k ≥ 0. -/
+theorem C20_replace (s t : Text) (n k : Int) (hn : 1 ≤ n) (hk : 0 ≤ k) :
+    ∃ a b, left s (n - 1) = some a ∧ mid s (n + k) s.length = some b ∧ replace s n k t = some (a ++ t ++ b) :=
+  replace_spec s t n k hn hk
+
+/-- "give #VALUE! for negative counts" (and for a start position below 1). -/
+theorem C20_negative_counts (s t : Text) (p k : Int) :
+    (k < 0 → left s k = none ∧ right s k = none ∧ mid s p k = none ∧ replace s p k t = none) ∧
+    (p < 1 → mid s p k = none ∧ replace s p k t = none) := by
+  constructor
+  · intro h; simp [left, right, mid, replace, h]
+  · intro h; simp [mid, replace, h]
+
+/-! ### FIND -/
+
+/-- "FIND returns the first position p with MID(s,p,LEN(f)) = f": a returned p is at or after start_num, the
+    occurrence lies inside s, MID reads f there, and no earlier position from start_num on does. -/
+theorem C20_find_first (f s : Text) (start p : Int) (h : find f s start = some p) :
+    1 ≤ start ∧ start ≤ p ∧ p + f.length ≤ s.length + 1 ∧ mid s p f.length = some f ∧
+      ∀ q, start ≤ q → q < p → mid s q f.length ≠ some f :=
+  find_first f s start p h
+
+/-- "or #VALUE!": only when start_num < 1 or no position from start_num on holds f. -/
+theorem C20_find_none (f s : Text) (start : Int) (h : find f s start = none) :
+    start < 1 ∨ ∀ q, start ≤ q → q + f.length ≤ s.length + 1 → mid s q f.length ≠ some f :=
+  find_none f s start h
+
+/-- conversely an occurrence at or after a legal start_num is always found. -/
+theorem C20_find_complete (f s : Text) (start : Int) (hs : 1 ≤ start)
+    (h : ∃ q, start ≤ q ∧ q + f.length ≤ s.length + 1 ∧ mid s q f.length = some f) :
+    ∃ p, find f s start = some p :=
+  find_complete f s start hs h
+
+/-! ### SUBSTITUTE — reference: leftmost non-overlapping occurrences (`findIdx` = first occurrence, see C20_find_*) -/
+
+/-- "SUBSTITUTE replaces all": no occurrence, nothing changes … -/
+theorem C20_substitute_all_none (old new s : Text) (h : findIdx old s = none) : substAll old new s = s :=
+  substAll_none old new s h
+
+/-- … and with a first occurrence at index i the text before it is kept, the occurrence becomes `new`, and the
+    rest AFTER the occurrence is treated the same way (so occurrences never overlap).  These two equations
+    determine `substAll` (induction on the length). -/
+theorem C20_substitute_all_first (old new s : Text) (ho : old ≠ []) (i : Nat) (h : findIdx old s = some i) :
+    substAll old new s = s.take i ++ new ++ substAll old new (s.drop (i + old.length)) :=
+  substAll_first old new s ho i h
+
+/-- "or exactly the i-th occurrence": instance 1 replaces the first occurrence only … -/
+theorem C20_substitute_nth_first (old new s : Text) (ho : old ≠ []) (i : Nat) (h : findIdx old s = some i) :
+    substNth old new s 1 = s.take i ++ new ++ s.drop (i + old.length) := by
+  simp [substNth, ho, substNthF, h]
+
+/-- … instance n+1 keeps everything up to the end of the first occurrence and replaces instance n of the rest … -/
+theorem C20_substitute_nth_next (old new s : Text) (ho : old ≠ []) (n i : Nat) (hn : 1 ≤ n)
+    (h : findIdx old s = some i) :
+    substNth old new s (n + 1) = s.take (i + old.length) ++ substNth old new (s.drop (i + old.length)) n := by
+  obtain ⟨m, rfl⟩ : ∃ m, n = m + 1 := ⟨n - 1, by omega⟩
+  simp [substNth, ho, substNthF, h]
+
+/-- … and when the occurrences run out the text is returned unchanged. -/
+theorem C20_substitute_nth_none (old new s : Text) (n : Nat) (h : findIdx old s = none) :
+    substNth old new s n = s := by
+  unfold substNth
+  split
+  · rfl
+  · cases n - 1 <;> simp [substNthF, h]
+
+/-- an empty old_text has no occurrences (Excel): nothing is replaced. -/
+theorem C20_substitute_empty (new s : Text) (n : Nat) : substAll [] new s = s ∧ substNth [] new s n = s := by
+  simp [substAll, substNth]
+
+/-! ### CONCATENATE and & -/
+
+/-- "CONCATENATE and & agree" — on every pair of scalars (texts, numbers, logicals, blanks, error values). -/
+theorem C20_concat_amp (a b : Val) : CONCATENATE [a, b] = AMP a b := by
+  cases a <;> cases b <;> simp [CONCATENATE, AMP, renderVal]
+
+/-- n-ary CONCATENATE is the right fold of & over its arguments. -/
+theorem C20_concat_cons (v : Val) (vs : List Val) : CONCATENATE (v :: vs) = AMP v (CONCATENATE vs) :=
+  concat_cons v vs
+
+/-! ### TRIM -/
+
+/-- "none at the ends": the result neither starts nor ends with a space. -/
+theorem C20_trim_ends (s : Text) : (trim s).head? ≠ some ' ' ∧ (trim s).getLast? ≠ some ' ' := by
+  by_cases h : trim s = []
+  · simp [h]
+  · have hn := nil_not_mem_split_trim s h
+    exact ⟨fun e => hn (nil_mem_split_of_head e), fun e => hn (nil_mem_split_of_last e)⟩
+
+/-- "TRIM leaves single inner spaces": two adjacent spaces occur nowhere in the result. -/
+theorem C20_trim_single (s : Text) : ¬ [' ', ' '] <:+: trim s := by
+  intro hd
+  by_cases h : trim s = []
+  · rw [h] at hd
+    obtain ⟨a, b, hab⟩ := hd
+    have := congrArg List.length hab
+    simp at this
+  · exact nil_not_mem_split_trim s h (nil_mem_split_of_double hd)
+
+/-- the inner words are preserved, in order; and the result is those words joined by single spaces. -/
+theorem C20_trim_words (s : Text) : words (trim s) = words s ∧ trim s = joinSp (words s) :=
+  ⟨words_joinSp _ (words_isWord s), rfl⟩
+
+/-- "UPPER/LOWER/TRIM are idempotent" — TRIM. -/
+theorem C20_trim_idem (s : Text) : trim (trim s) = trim s := by
+  show joinSp (words (trim s)) = trim s
+  rw [(C20_trim_words s).1]; rfl
+
+/-! ### UPPER / LOWER (ASCII and Latin-1 letters, `Ops.upper` / `Ops.lower`) -/
+
+/-- "UPPER/LOWER/TRIM are idempotent" — UPPER. -/
+theorem C20_upper_idem (s : Text) : upper (upper s) = upper s := by
+  simp [upper, List.map_map, Function.comp_def, upperChar_idem]
+
+/-- "UPPER/LOWER/TRIM are idempotent" — LOWER. -/
+theorem C20_lower_idem (s : Text) : lower (lower s) = lower s := by
+  simp [lower, List.map_map, Function.comp_def, lowerChar_idem]
+
+/-! ### EXACT -/
+
+/-- "EXACT is case-sensitive equality": TRUE exactly when the two texts are the same character sequence. -/
+theorem C20_exact (a b : Text) : exact a b = true ↔ a = b := by
+  simp [exact]
+
+/-- case matters: a text containing a lower-case ASCII letter is never EXACT-equal to its upper-casing. -/
+theorem C20_exact_case (s : Text) (h : ∃ c ∈ s, 97 ≤ c.toNat ∧ c.toNat ≤ 122) : exact s (upper s) = false := by
+  obtain ⟨c, hc, h1, h2⟩ := h
+  have : s ≠ upper s := by
+    intro e
+    have hm : ∀ (l : Text), l = l.map upperChar → ∀ x ∈ l, upperChar x = x := by
+      intro l
+      induction l with
+      | nil => intro _ x hx; simp at hx
+      | cons a l ih =>
+        intro hl x hx
+        simp only [List.map_cons, List.cons.injEq] at hl
+        rcases List.mem_cons.mp hx with h | h
+        · rw [h]; exact hl.1.symm
+        · exact ih hl.2 x h
+    have hm := hm s e
+    have := hm c hc
+    unfold upperChar at this
+    simp only [] at this
+    have hin : (97 ≤ c.toNat ∧ c.toNat ≤ 122) ∨ (224 ≤ c.toNat ∧ c.toNat ≤ 254 ∧ c.toNat ≠ 247) := Or.inl ⟨h1, h2⟩
+    simp only [hin, ↓reduceIte] at this
+    have h3 := congrArg Char.toNat this
+    rw [toNat_ofNat_small _ (by omega)] at h3
+    omega
+  simpa [exact] using this
+
+/-! ### argument handling -/
+
+theorem pyTrunc_int (i : Int) : pyTrunc (i : Rat) = i := by
+  unfold pyTrunc
+  split
+  · exact Rat.floor_intCast i
+  · exact Rat.ceil_intCast i
+
+theorem intCast_neg_iff (i : Int) : ((i : Rat) < 0) ↔ i < 0 := by
+  have : (0 : Rat) = ((0 : Int) : Rat) := by simp
+  rw [this]; simp only [Rat.intCast_lt_intCast]
+
+theorem intCast_lt_one_iff (i : Int) : ((i : Rat) < 1) ↔ i < 1 := by
+  have : (1 : Rat) = ((1 : Int) : Rat) := by simp
+  rw [this]; simp only [Rat.intCast_lt_intCast]
+
+/-- "The slicing functions treat numbers as their Excel rendering (3, not 3.0)": an integer-valued number used as
+    text is its decimal numeral — an optional '-' and digits, no point — whichever way it arrived (int or float are
+    the same `Val.num`), and LEFT/LEN of the number are LEFT/LEN of that numeral. -/
+theorem C20_number_rendering (i : Int) (n : Option Val) :
+    strArg (.num (i : Rat)) = .ok (intRepr i) ∧
+    (∀ c ∈ intRepr i, c = '-' ∨ c.isDigit = true) ∧
+    LEFT (.num (i : Rat)) n = LEFT (.str (intRepr i)) n ∧
+    LEN (.num (i : Rat)) = .num ((intRepr i).length : Rat) := by
+  have h1 : strArg (.num (i : Rat)) = .ok (intRepr i) := by
+    simp [strArg, coerceToString, renderVal, renderNum]
+  refine ⟨h1, ?_, ?_, ?_⟩
+  · intro c hc
+    unfold intRepr at hc
+    split at hc
+    · rcases List.mem_cons.mp hc with h | h
+      · exact Or.inl h
+      · exact Or.inr (Nat.isDigit_of_mem_toDigits (by omega) (by omega) h)
+    · exact Or.inr (Nat.isDigit_of_mem_toDigits (by omega) (by omega) hc)
+  · simp only [LEFT, h1]
+    simp [strArg, coerceToString]
+  · simp [LEN, renderVal, renderNum]
+
+/-- On a text and integer positions the `excel_helper`-wrapped functions are the core functions above
+    (`optText none` = #VALUE!): the theorems of this file are statements about what LEFT … FIND return. -/
+theorem C20_wrapper_text (s t f : Text) (n k : Int) :
+    LEFT (.str s) (some (.num n)) = optText (left s n) ∧
+    RIGHT (.str s) (some (.num n)) = optText (right s n) ∧
+    MID (.str s) (.num n) (.num k) = optText (mid s n k) ∧
+    REPLACE (.str s) (.num n) (.num k) (.str t) = optText (replace s n k t) ∧
+    FIND (.str f) (.str s) (some (.num n)) = (match find f s n with | none => .err .value | some p => .num (p : Rat)) ∧
+    TRIM (.str s) = .str (trim s) ∧ UPPER (.str s) = .str (upper s) ∧ LOWER (.str s) = .str (lower s) ∧
+    EXACT (.str s) (.str t) = .bool (exact s t) ∧
+    SUBSTITUTE (.str s) (.str f) (.str t) none = .str (substAll f t s) := by
+  have hs : ∀ x : Text, strArg (.str x) = .ok x := fun x => rfl
+  have hn : ∀ x : Int, num1 (.num (x : Rat)) = .ok (x : Rat) := fun x => rfl
+  have hn2 : num2 (.num (n : Rat)) (.num (k : Rat)) = .ok ((n : Rat), (k : Rat)) := rfl
+  refine ⟨?_, ?_, ?_, ?_, ?_, rfl, rfl, rfl, rfl, rfl⟩
+  · simp only [LEFT, hs, Option.getD_some, hn, intCast_neg_iff, pyTrunc_int]
+    unfold left; split <;> rfl
+  · simp only [RIGHT, hs, Option.getD_some, hn, intCast_neg_iff, pyTrunc_int]
+    unfold right; split <;> rfl
+  · simp only [MID, hs, hn2, intCast_neg_iff, intCast_lt_one_iff, pyTrunc_int]
+    unfold mid; split <;> rfl
+  · simp only [REPLACE, hs, hn2, pyTrunc_int]
+  · simp only [FIND, hs, Option.getD_some, hn, pyTrunc_int]
+    cases find f s n <;> rfl
+
+-- non-vacuity and concrete instances (texts with repeats, spaces and a multi-byte character)
+example : left "a€b".toList 2 = some "a€".toList ∧ mid "a€b".toList 3 3 = some "b".toList := by decide
+example : right "a€b".toList 2 = some "€b".toList ∧ right "ab".toList 0 = some [] ∧ right "ab".toList 7 = some "ab".toList := by
+  decide
+example : replace "abcd".toList 2 2 "XY€".toList = some "aXY€d".toList := by decide
+example : find "a".toList "aba".toList 2 = some 3 ∧ find "a".toList "aba".toList 0 = none ∧
+    find "ab".toList "aab".toList 1 = some 2 ∧ find [] "abc".toList 4 = some 4 ∧ find [] "abc".toList 5 = none := by decide
+example : substAll "aa".toList "x".toList "aaa".toList = "xa".toList ∧
+    substNth "aa".toList "x".toList "aaaa".toList 2 = "aax".toList ∧
+    substNth "a".toList "X".toList "abcabc".toList 3 = "abcabc".toList := by decide
+example : trim " a  b ".toList = "a b".toList ∧ trim "  ".toList = [] ∧ words " a  b€ ".toList = ["a".toList, "b€".toList] := by
+  decide
+example : findIdx "b".toList "abc".toList = some 1 ∧ findIdx "x".toList "abc".toList = none := by decide
+example : exact "a".toList "A".toList = false ∧ exact "a€".toList "a€".toList = true := by decide
+example : ∃ c ∈ "Word".toList, 97 ≤ c.toNat ∧ c.toNat ≤ 122 := ⟨'o', by decide, by decide, by decide⟩
+
+end Pycel.TextFns
+
+namespace Pycel.TextFormat
+open Pycel Pycel.Ops
+
+/-! ### TEXT(x, f): "renders the half-away-from-zero decimal rounding of x with the requested digits, grouping and
+    percent scaling".  For a canonical format F (`parseFmt`) with d = F.decimals decimals and p = F.percents percent
+    signs, N / D with N = scaledNum F x = |num x| · 100^p · 10^d and D = den x is |x| · 100^p in units of 10^-d. -/
+
+/-- the rounded count r of units 10^-d is the nearest integer to N / D:  N/D − 1/2 < r ≤ N/D + 1/2, i.e.
+    |x|·100^p is rounded to d decimals to nearest, and an exact tie goes up in magnitude (away from zero). -/
+theorem C20_text_round (F : Fmt) (x : Rat) :
+    2 * x.den * rounded F x ≤ 2 * scaledNum F x + x.den ∧
+    2 * scaledNum F x + x.den < 2 * x.den * (rounded F x + 1) :=
+  roundHalfUp_bounds _ _ x.den_pos
+
+/-- N / D really is the value to be rounded: |x| · 100^p · 10^d as an exact rational (p = percent signs, d = decimals) -/
+theorem C20_text_scaled (F : Fmt) (x : Rat) :
+    ((scaledNum F x : Nat) : Rat) / (x.den : Rat) = absR x * (100 : Rat) ^ F.percents * (10 : Rat) ^ F.decimals :=
+  scaled_value F x
+
+/-- ties: when N / D lies exactly half-way between m and m + 1 the result is m + 1 (half away from zero, as the sign
+    is applied to the magnitude afterwards); an exactly representable value is not changed. -/
+theorem C20_text_tie (F : Fmt) (x : Rat) (m : Nat) :
+    (2 * scaledNum F x = x.den * (2 * m + 1) → rounded F x = m + 1) ∧
+    (scaledNum F x = x.den * m → rounded F x = m) := by
+  constructor
+  · exact roundHalfUp_tie _ _ m x.den_pos
+  · intro h; unfold rounded; rw [h]; exact roundHalfUp_exact _ m x.den_pos
+
+theorem comma_not_mem_intDigits (w n : Nat) : ',' ∉ zpadLeft w (intDigits n) := by
+  intro h
+  unfold zpadLeft at h
+  rcases List.mem_append.mp h with h | h
+  · have := (List.mem_replicate.mp h).2
+    exact absurd this (by decide)
+  · unfold intDigits at h
+    split at h
+    · simp at h
+    · have := digits_isDigit n _ h
+      exact absurd this (by decide)
+
+/-- "with the requested digits": the integer part of the output, commas removed, is a decimal numeral of
+    r / 10^d (the integer part of the rounded value), with at least as many digits as there are `0` placeholders. -/
+theorem C20_text_digits (F : Fmt) (r : Nat) :
+    Nat.ofDigitChars 10 ((intPart F r).filter (· ≠ ',')) 0 = r / 10 ^ F.decimals ∧
+    F.zeros ≤ ((intPart F r).filter (· ≠ ',')).length := by
+  have hc := comma_not_mem_intDigits F.zeros (r / 10 ^ F.decimals)
+  have hf : (intPart F r).filter (· ≠ ',') = zpadLeft F.zeros (intDigits (r / 10 ^ F.decimals)) := by
+    unfold intPart
+    split
+    · exact group3_filter _ hc
+    · apply List.filter_eq_self.mpr
+      intro a ha
+      have : a ≠ ',' := fun e => hc (e ▸ ha)
+      simpa using this
+  rw [hf]
+  exact ⟨by rw [zpadLeft_value, intDigits_value], zpadLeft_length_ge _ _⟩
+
+/-- the fraction digits: exactly d digits denoting r mod 10^d, from which only trailing zeros are removed (and
+    zeros put back up to the number of `0` placeholders), so the printed fraction denotes the same value. -/
+theorem C20_text_frac_digits (F : Fmt) (r : Nat) (hd : 0 < F.decimals) :
+    let t := zpadLeft F.decimals (digits (r % 10 ^ F.decimals))
+    t.length = F.decimals ∧ Nat.ofDigitChars 10 t 0 = r % 10 ^ F.decimals ∧
+    (∃ k, t = stripTrailing0 t ++ List.replicate k '0') ∧
+    fracPart F r = zpadRight F.fz (stripTrailing0 t) := by
+  refine ⟨?_, ?_, stripTrailing0_spec _, rfl⟩
+  · apply zpadLeft_length
+    exact digits_length_le _ _ hd (Nat.mod_lt _ (Nat.pow_pos (by omega)))
+  · rw [zpadLeft_value, digits_value]
+
+/-- "grouping": with a thousands comma in the format, the commas of the integer part stand exactly at every fourth
+    position counted from its right end (… d,ddd,ddd), and removing them gives back the digits (C20_text_digits). -/
+theorem C20_text_grouping (F : Fmt) (r : Nat) (ht : F.thousands = true) (i : Nat) :
+    ((intPart F r).reverse[i]? = some ',' ↔ i < (intPart F r).length ∧ i % 4 = 3) := by
+  unfold intPart
+  simp only [ht, ↓reduceIte, group3, List.reverse_reverse]
+  have hc := comma_not_mem_intDigits F.zeros (r / 10 ^ F.decimals)
+  have := group3Rev_comma (zpadLeft F.zeros (intDigits (r / 10 ^ F.decimals))).reverse (by simpa using hc) 0 i
+    (by omega)
+  simpa using this
+
+/-- "percent scaling": each percent sign of the format multiplies the value by 100 before rounding. -/
+theorem C20_text_percent (F : Fmt) (x : Rat) :
+    scaledNum F x = x.num.natAbs * 100 ^ (F.pre + F.post) * 10 ^ F.decimals ∧
+    scaledNum { F with post := F.post + 1 } x = 100 * scaledNum F x := by
+  constructor
+  · rfl
+  · simp only [scaledNum, Fmt.percents, Fmt.decimals]
+    rw [← Nat.add_assoc, Nat.pow_succ]
+    simp only [Nat.mul_comm, Nat.mul_left_comm]
+
+/-- the shape of the result: sign, leading percent signs, integer part, point and fraction, trailing percent signs -/
+theorem C20_text_shape (F : Fmt) (fmt : Text) (x : Rat) (h : F.noNumber = false) :
+    textNum F fmt x = (if x < 0 then ['-'] else []) ++ pct F.pre ++ intPart F (rounded F x) ++
+      (if F.dot then '.' :: fracPart F (rounded F x) else []) ++ pct F.post := by
+  simp [textNum, h]
+
+-- non-vacuity: formats of the grammar, the classic ties
+example : parseFmt "#,##0.00%".toList = some ⟨0, 3, 1, true, true, 2, 0, 1⟩ := by decide
+example : parseFmt "0".toList = some ⟨0, 0, 1, false, false, 0, 0, 0⟩ ∧ parseFmt "0,,".toList = none ∧
+    parseFmt "0.#0".toList = none := by decide
+-- 2.5 with "0": N = 5, D = 2 is the tie between 2 and 3 -> 3;  0.125 with "0.00": N = 100, D = 8 -> 13
+example : roundHalfUp 5 2 = 3 ∧ roundHalfUp 100 8 = 13 ∧ roundHalfUp 2850 100 = 29 := by decide
+example : intPart ⟨0, 3, 1, true, false, 0, 0, 0⟩ 1234567 = "1,234,567".toList := by decide
+example : fracPart ⟨0, 0, 1, false, true, 1, 2, 0⟩ 12500 = "5".toList ∧
+    fracPart ⟨0, 0, 1, false, true, 2, 0, 0⟩ 1205 = "05".toList := by decide
+
+end Pycel.TextFormat
